@@ -63,4 +63,17 @@ Proof.
     intros H. exact (Fin (x0 * sqrtm1) Hx p H).
 Qed.
 
+(* the shape of what is returned: Z = 1, the ordinate as given, x of the announced parity or negated *)
+Theorem decode_y_shape (e : positive) (y : K) (neg : bool) (p : ext (K:=K)) :
+  decode_y O d sqrtm1 parity e y neg = Some p ->
+  exists x, p = mkext (if Bool.eqb (parity x) neg then x else - x) y 1
+                      ((if Bool.eqb (parity x) neg then x else - x) * y).
+Proof.
+  unfold decode_y. cbv zeta.
+  match goal with
+  | |- match ?ox with Some _ => _ | None => _ end = _ -> _ => destruct ox as [x|]; [|discriminate]
+  end.
+  intros H. injection H as <-. exists x. reflexivity.
+Qed.
+
 End DecodeLaws.
